@@ -68,12 +68,22 @@ func ruleC13_2(c *Ctx) {
 		return
 	}
 	fn := fname(f)
+	// the content: os.ReadFile(path), or io.ReadAll of the file opened with os.Open(path)
 	rf := firstCall(f, "os.ReadFile")
-	c.check(rf != nil && org(rf.Common().Args[0]) == "p0", R, fn, "content = os.ReadFile(path parameter)", f.Pos(), "os.ReadFile(p0)", "the file named by the path parameter is not what is read")
-	if rf == nil {
+	var contents ssa.Value
+	if rf != nil {
+		c.check(org(rf.Common().Args[0]) == "p0", R, fn, "content = os.ReadFile(path parameter)", rf.Pos(), "os.ReadFile(p0)", "the file named by the path parameter is not what is read: "+short(org(rf.Common().Args[0])))
+		contents = resultN(rf, 0)
+	} else if ra := firstCall(f, "io.ReadAll"); ra != nil {
+		op, _ := producer(ra.Common().Args[0], ra)
+		okOpen := op != nil && calleeName(op) == "os.Open" && org(op.Common().Args[0]) == "p0"
+		c.check(okOpen, R, fn, "content = io.ReadAll(os.Open(path parameter))", ra.Pos(), "io.ReadAll of the file opened from p0", "the bytes read do not come from the file named by the path parameter: "+short(org(ra.Common().Args[0])))
+		rf = ra
+		contents = resultN(ra, 0)
+	} else {
+		c.undecided(R, fn, "how the file content is obtained", f.Pos(), "the content is read neither with os.ReadFile(path) nor with io.ReadAll(os.Open(path)): this way of feeding the hashes (streaming?) is not recognised, so that every byte of the named file, and nothing else, is hashed — and that a read error fails the recording — is not decided")
 		return
 	}
-	contents := resultN(rf, 0)
 	// every rewrite of the bytes is under lineNormalization == true
 	nrw := 0
 	for _, call := range allCalls(f) {
